@@ -102,7 +102,7 @@ func scenC19(r *Run) {
 		}
 	}
 	keys := "pbjjk " + string([]byte{'1', '\r'}) + "hl"
-	for _, fn := range []string{"f1", "solo", "empty"} {
+	for _, fn := range []string{"f1", "odd", "solo", "empty"} {
 		if _, ok := r.Job.Cfg.Feeds[fn]; ok {
 			keys += ":feed " + fn + "\rjj "
 		}
